@@ -5,7 +5,7 @@ From LV Require Import Base.Bytes Base.Sx Model.Obj Model.DocQ Gen.Crypto
   Model.Crypto.Word Model.Crypto.MD5 Model.Crypto.RC4 Model.Crypto.PKCS5 Model.Crypto.Handler Model.Crypto.Concrete
   Spec.Crypto.Iso Spec.Crypto.IsoConcrete
   Proofs.CryptoProofs Proofs.CryptoProofsFilter Proofs.CryptoProofsObject Proofs.IsoProofs Proofs.IsoProofsData
-  Proofs.IsoProofsObj Proofs.IsoProofsFilter.
+  Proofs.IsoProofsObj Proofs.IsoProofsFilter Proofs.IsoProofsAuth Proofs.IsoProofsDoc.
 Local Open Scope N_scope.
 
 (* the Gallina MD5 yields 16 bytes: the one fact about MD5 the refinement theorems use *)
@@ -59,7 +59,7 @@ Proof.
   - intros _. split; [reflexivity|]. right. vm_compute. discriminate.
   - intros _. split; [reflexivity|]. left. reflexivity.
   - intros _. split; [reflexivity|discriminate].
-  - intro n. unfold resolve. destruct (bytes_eqb n iN_Identity); [exact Logic.I|].
+  - intros _ n. unfold resolve. destruct (bytes_eqb n iN_Identity); [exact Logic.I|].
     cbn [ip_CF ex_ip cf_lookup].
     destruct (bytes_eqb KS n); [cbn; lia|]. destruct (bytes_eqb KP n); exact Logic.I.
 Qed.
@@ -139,7 +139,7 @@ Proof.
   - intros _. split; [reflexivity|]. right. vm_compute. discriminate.
   - intros _. split; [reflexivity|]. left. reflexivity.
   - intros _. split; [reflexivity|]. intros e He. inversion He; subst e. right. vm_compute. discriminate.
-  - intro n. unfold resolve. destruct (bytes_eqb n iN_Identity); [exact Logic.I|].
+  - intros _ n. unfold resolve. destruct (bytes_eqb n iN_Identity); [exact Logic.I|].
     cbn [ip_CF ex_ip_eff cf_lookup].
     destruct (bytes_eqb KS n); [cbn; lia|]. destruct (bytes_eqb KP n); exact Logic.I.
 Qed.
@@ -165,12 +165,54 @@ Qed.
 (* the encryption dictionary as a direct object of the trailer: the standard's writer puts it there, lopdf's model
    recognises it and opens the document *)
 Definition ex_doc_direct : doc := encrypt_document iconcrete ex_rq_v2 None [] [] ex_doc.
-Lemma direct_encrypt_example :
-  is_encrypted ex_doc_direct = true /\
-  match find_encrypt ex_doc_direct with Some (None, _) => true | _ => false end = true /\
-  match doc_decrypt concrete ex_doc_direct (bs "user") with
-  | DOk d' _ => bytes_eqb (sx_print (objmap_to_sx (d_objects d'))) (sx_print (objmap_to_sx (d_objects ex_doc)))
+Definition opens_direct (d plain : doc) (pw : bytes) : bool :=
+  is_encrypted d &&
+  match find_encrypt d with Some (None, _) => true | _ => false end &&
+  match doc_decrypt concrete d pw with
+  | DOk d' _ => bytes_eqb (sx_print (objmap_to_sx (d_objects d'))) (sx_print (objmap_to_sx (d_objects plain)))
                 && match dict_get (d_trailer d') K_Encrypt with None => true | _ => false end
   | _ => false
-  end = true.
-Proof. repeat split; vm_compute; reflexivity. Qed.
+  end.
+Lemma direct_encrypt_example : opens_direct ex_doc_direct ex_doc (bs "user") = true.
+Proof. vm_compute. reflexivity. Qed.
+
+(* ---------- the hypotheses of the document-level theorems are satisfiable: the V 2 request and document above, and a
+   V 4 request with two crypt filters, EFF and EncryptMetadata false ---------- *)
+Lemma ex_doc_objs_ok ip : Forall (fun io => indirect_ok ip (snd io)) (d_objects ex_doc).
+Proof.
+  unfold ex_doc. cbn [d_objects]. repeat constructor; cbn [snd indirect_ok no_streams no_streams_dict]; auto.
+Qed.
+
+Lemma ex_request_ok_v2 : request_ok_r4 ex_rq_v2 /\ doc_ok (rq_core ex_rq_v2) ex_doc (Some (5, 0)) /\
+  doc_ok (rq_core ex_rq_v2) ex_doc None /\ file_id_0 ex_doc = Ok (bs "0123456789abcdef").
+Proof.
+  split; [|split; [|split]].
+  - constructor.
+    + right. left. repeat split; try reflexivity; cbv; discriminate.
+    + intro HV. discriminate HV.
+    + reflexivity.
+  - constructor; try reflexivity; [|apply ex_doc_objs_ok].
+    intros s Hs. inversion Hs; subst s. cbn [ex_doc d_objects map fst In]. intros [H|[H|[H|[]]]]; discriminate H.
+  - constructor; try reflexivity; [|apply ex_doc_objs_ok]. intros s Hs. discriminate Hs.
+  - reflexivity.
+Qed.
+
+Definition ex_rq_v4 : irequest :=
+  {| rq_V := 4; rq_R := 4; rq_Length := 128; rq_EncryptMetadata := false; rq_CF := [(KS, ICF_AESV2); (KP, ICF_None)];
+     rq_StmF := KS; rq_StrF := iN_Identity; rq_EFF := Some KP; rq_owner := Some (bs "owner"); rq_user := bs "user";
+     rq_P := P_of_flags 2052; rq_fek := [] |}.
+Lemma ex_request_ok_v4 : request_ok_r4 ex_rq_v4 /\ doc_ok (rq_core ex_rq_v4) ex_doc None.
+Proof.
+  split.
+  - constructor.
+    + right. right. repeat split; reflexivity.
+    + intros _. constructor; cbn [rq_core ex_rq_v4 ip_CF ip_StmF ip_StrF ip_EFF ip_V map fst rq_CF rq_StmF rq_StrF rq_EFF rq_V].
+      * constructor; [cbn [In]; intros [H|[]]; discriminate H|]. constructor; [intros []|constructor].
+      * reflexivity.
+      * right. vm_compute. discriminate.
+      * left. reflexivity.
+      * intros e H. inversion H; subst e. right. vm_compute. discriminate.
+      * intros _. repeat constructor; cbn [snd]; discriminate.
+    + reflexivity.
+  - constructor; try reflexivity; [|apply ex_doc_objs_ok]. intros s Hs. discriminate Hs.
+Qed.
